@@ -564,7 +564,7 @@ impl Adf {
                             ));
                         }
                     }
-                    res
+                    Ok::<(), ()>(())
                 });
             log::trace!("results found so far:{}", result.len());
             // checked one alternative, we can now conclude that only the other option may work
